@@ -189,7 +189,7 @@ Section WithDistance.
          self.start = filters[0]
      The filters are fresh, pairwise distinct objects whose next_filter is None (a filter object belongs to one
      chain: assumption of the model, see NOTES_filter.md).  After the loop filters[i].next_filter is
-     filters[i+1] for i < n-1 and the last one still has None; [link] is that final heap as a value. *)
+     filters[i+1] for i < n-1 and the last one still has None; [filter_link] is that final heap as a value. *)
   Fixpoint filter_link (f : filter_cfg) (rest : list filter_cfg) : filter_obj :=
     match rest with
     | [] => FObj f None
